@@ -62,7 +62,209 @@ def build(repo):
         g.under_contract.append({'fn': name, 'src': f'{REL}:{src.line_of(sp[0])}', 'requires': [], 'ensures': c.ensures})
         g.add(apply_contract(txt, c, g.dropped))
     g.add(LEMMAS)
+    add_images(src, g, fxify)
     return g
+
+# ----------------------------------------------------------------------------------------------------------------
+# the two per-image functions (iterator loops over fixed-size arrays + one loop over the image)
+def unroll_zip3(txt, g):
+    """R-zip3: `for PAT in A.iter_mut().zip(B.iter())[.zip(C.iter())] { BODY }` over [_; 3] arrays (and
+    `for v in &mut A { BODY }`) -> BODY written out for k = 0, 1, 2 with `*var` -> `ARRAY[k]`."""
+    from rsx import _mask
+    n = 0
+    while True:
+        m = re.search(r'for (\(\((\w+), (\w+)\), (\w+)\)|\((\w+), (\w+)\)) in\s+(\w+)\s*\.iter_mut\(\)\s*\.zip\((\w+)\.iter\(\)\)(?:\s*\.zip\((\w+)\.iter\(\)\))?\s*\{', txt)
+        m2 = re.search(r'for (\w+) in &mut (\w+) \{', txt) if not m else None
+        if not m and not m2: break
+        mm = m or m2
+        ob = mm.end() - 1
+        depth, k = 0, ob
+        mk = _mask(txt)
+        while True:
+            depth += (mk[k] == '{') - (mk[k] == '}')
+            if depth == 0: break
+            k += 1
+        body = txt[ob + 1:k]
+        if m:
+            if m.group(2):   # triple
+                subst = [(m.group(2), m.group(7)), (m.group(3), m.group(8)), (m.group(4), m.group(9))]
+            else:
+                subst = [(m.group(5), m.group(7)), (m.group(6), m.group(8))]
+        else:
+            if m2.group(2) == 'input': break    # the image loop is handled by pixloop
+            subst = [(m2.group(1), m2.group(2))]
+        out = ''
+        for idx in range(3):
+            b = body
+            for var, arr in subst:
+                b = re.sub(r'\*%s\b' % var, f'{arr}[{idx}]', b)
+            out += '{' + b + '}\n'
+        txt = txt[:mm.start()] + out + txt[k + 1:]
+        n += 1
+    txt = re.sub(r'(\w+\[\d\]) -= ([^;]+);', r'\1 = \1 - \2;', txt)      # R-opassign
+    g.dropped.append(f'R-zip3: {n} loops over fixed [_;3] arrays (`iter_mut().zip(..)` / `for v in &mut arr`) written out for k = 0,1,2 with `*var` -> `array[k]`; `a -= b` -> `a = a - b`')
+    return txt
+
+def pixloop(txt, g, inv):
+    """R-pixloop: `for pix in &mut input { BODY }` -> index loop over the Vec; inside BODY `pix` is a local copy `pix_`
+    written back with `input.set(i_, pix_)` at the end of the iteration."""
+    from rsx import _mask
+    m = re.search(r'for pix in &mut input \{', txt)
+    if not m: raise AnchorLost('per-image loop `for pix in &mut input` not found')
+    ob = m.end() - 1
+    mk = _mask(txt); depth, k = 0, ob
+    while True:
+        depth += (mk[k] == '{') - (mk[k] == '}')
+        if depth == 0: break
+        k += 1
+    body = txt[ob + 1:k]
+    body = re.sub(r'\*pix = ', 'pix_ = ', body)
+    body = re.sub(r'opsin_absorbance\(pix\)', 'opsin_absorbance(&pix_)', body)
+    body = re.sub(r'\bpix\[', 'pix_[', body)
+    if re.search(r'\bpix\b', body): raise AnchorLost('per-image loop uses `pix` in an unknown way')
+    new = ('let ghost input_0 = input@;\n    let mut i_: usize = 0;\n    while i_ < input.len()\n        invariant input@.len() == input_0.len(), 0 <= i_ <= input@.len(),\n'
+           '            forall|k: int| i_ <= k < input@.len() ==> #[trigger] input@[k] == input_0[k],\n' + inv +
+           '        decreases input@.len() - i_\n    {\n        let mut pix_ = input[i_];\n' + body + '\n        input.set(i_, pix_);\n        i_ += 1;\n    }')
+    g.dropped.append('R-pixloop: `for pix in &mut input { .. }` -> index loop; `pix` is a local copy written back with input.set(i, pix) at the end of each iteration')
+    return txt[:m.start()] + new + txt[k + 1:]
+
+IMG_SPEC = r"""
+// ---- C04 / C05: the per-image functions.  cbrtf is an uninterpreted function here (ideal-cube-root hypotheses are
+// stated explicitly where a lemma needs them).
+pub uninterp spec fn s_cbrt(x: real) -> real;
+#[verifier::external_body]
+fn cbrtf(x: Fx) -> (r: Fx) ensures r.val() == s_cbrt(x.val()) { unimplemented!() }
+pub open spec fn pos(x: real) -> real { if x < 0real { 0real } else { x } }
+// C04 as stated: (L,M,S) = cbrt(max(0, A*rgb + b)) - cbrt(b);  X = (L-M)/2, Y = (L+M)/2, B = S
+pub open spec fn lms(r: real, g: real, b: real, i: int) -> real { s_cbrt(pos(mix_spec(r, g, b, i))) + (0real - s_cbrt(s_OPSIN_ABSORBANCE_BIAS(i))) }
+pub open spec fn xyb_px(p: [Fx; 3], o: [Fx; 3]) -> bool {
+    let (r, g, b) = (p[0].val(), p[1].val(), p[2].val());
+    o[0].val() == 0.5real * (lms(r, g, b, 0) - lms(r, g, b, 1)) && o[1].val() == 0.5real * (lms(r, g, b, 0) + lms(r, g, b, 1)) && o[2].val() == lms(r, g, b, 2)
+}
+// inverse: un-mix, undo the bias shift, cube, remove the bias, multiply by the inverse matrix
+pub open spec fn cube_unbias(t: real, i: int) -> real { let u = t - s_cbrt(s_NEG_OPSIN_ABSORBANCE_BIAS(i)); (u * u) * u + s_NEG_OPSIN_ABSORBANCE_BIAS(i) }
+pub open spec fn inv_row(g0: real, g1: real, g2: real, i: int) -> real {
+    s_INVERSE_OPSIN_ABSORBANCE_MATRIX(3 * i + 2) * g2 + (s_INVERSE_OPSIN_ABSORBANCE_MATRIX(3 * i + 1) * g1 + s_INVERSE_OPSIN_ABSORBANCE_MATRIX(3 * i) * g0)
+}
+pub open spec fn lrgb_px(p: [Fx; 3], o: [Fx; 3]) -> bool {
+    let (x, y, b) = (p[0].val(), p[1].val(), p[2].val());
+    let (g0, g1, g2) = (cube_unbias(y + x, 0), cube_unbias(y - x, 1), cube_unbias(b, 2));
+    o[0].val() == inv_row(g0, g1, g2, 0) && o[1].val() == inv_row(g0, g1, g2, 1) && o[2].val() == inv_row(g0, g1, g2, 2)
+}
+"""
+
+RT_LEMMA = r"""
+// C05: with an IDEAL cube root (cube(cbrt(t)) == t, cbrt odd) the exact round trip of p in [0,1]^3 is p + E*p with
+// E = INV*A - I, hence within 3e-6 of p (lemma_inverse_residual).  The hypotheses about s_cbrt are explicit.
+pub open spec fn ideal_cbrt() -> bool {
+    (forall|t: real| #[trigger] s_cbrt(t) * s_cbrt(t) * s_cbrt(t) == t) && (forall|t: real| #[trigger] s_cbrt(0real - t) == 0real - s_cbrt(t))
+}
+pub proof fn lemma_round_trip(p: [Fx; 3], x: [Fx; 3], o: [Fx; 3])
+    requires ideal_cbrt(), xyb_px(p, x), lrgb_px(x, o),
+             0real <= p[0].val() <= 1real, 0real <= p[1].val() <= 1real, 0real <= p[2].val() <= 1real,
+    ensures absr(o[0].val() - p[0].val()) <= 0.000003real, absr(o[1].val() - p[1].val()) <= 0.000003real, absr(o[2].val() - p[2].val()) <= 0.000003real
+{
+    let (r, g, b) = (p[0].val(), p[1].val(), p[2].val());
+    lemma_opsin_constants_are_jxl();
+    // mixes are positive on the unit cube, so the clamp at 0 is inactive
+    let m0 = mix_spec(r, g, b, 0); let m1 = mix_spec(r, g, b, 1); let m2 = mix_spec(r, g, b, 2);
+    assert(s_OPSIN_ABSORBANCE_MATRIX(0) > 0real && s_OPSIN_ABSORBANCE_MATRIX(1) > 0real && s_OPSIN_ABSORBANCE_MATRIX(2) > 0real);
+    assert(s_OPSIN_ABSORBANCE_MATRIX(3) > 0real && s_OPSIN_ABSORBANCE_MATRIX(4) > 0real && s_OPSIN_ABSORBANCE_MATRIX(5) > 0real);
+    assert(s_OPSIN_ABSORBANCE_MATRIX(6) > 0real && s_OPSIN_ABSORBANCE_MATRIX(7) > 0real && s_OPSIN_ABSORBANCE_MATRIX(8) > 0real);
+    assert(s_OPSIN_ABSORBANCE_BIAS(0) > 0real && s_OPSIN_ABSORBANCE_BIAS(1) > 0real && s_OPSIN_ABSORBANCE_BIAS(2) > 0real);
+    lemma_pos_mix(r, g, b, 0); lemma_pos_mix(r, g, b, 1); lemma_pos_mix(r, g, b, 2);
+    assert(m0 > 0real && m1 > 0real && m2 > 0real);
+    let c0 = s_cbrt(m0); let c1 = s_cbrt(m1); let c2 = s_cbrt(m2);
+    let cb = s_cbrt(s_OPSIN_ABSORBANCE_BIAS(0));
+    assert(s_OPSIN_ABSORBANCE_BIAS(1) == s_OPSIN_ABSORBANCE_BIAS(0) && s_OPSIN_ABSORBANCE_BIAS(2) == s_OPSIN_ABSORBANCE_BIAS(0));
+    assert(s_cbrt(s_NEG_OPSIN_ABSORBANCE_BIAS(0)) == 0real - cb);
+    assert(s_cbrt(s_NEG_OPSIN_ABSORBANCE_BIAS(1)) == 0real - cb);
+    assert(s_cbrt(s_NEG_OPSIN_ABSORBANCE_BIAS(2)) == 0real - cb);
+    // un-mix and un-shift give back the cube roots of the mixes
+    assert((x[1].val() + x[0].val()) - (0real - cb) == c0);
+    assert((x[1].val() - x[0].val()) - (0real - cb) == c1);
+    assert(x[2].val() - (0real - cb) == c2);
+    assert(cube_unbias(x[1].val() + x[0].val(), 0) == m0 - s_OPSIN_ABSORBANCE_BIAS(0)) by { assert((c0 * c0) * c0 == m0); }
+    assert(cube_unbias(x[1].val() - x[0].val(), 1) == m1 - s_OPSIN_ABSORBANCE_BIAS(1)) by { assert((c1 * c1) * c1 == m1); }
+    assert(cube_unbias(x[2].val(), 2) == m2 - s_OPSIN_ABSORBANCE_BIAS(2)) by { assert((c2 * c2) * c2 == m2); }
+    lemma_res_row0(); lemma_res_row1(); lemma_res_row2();
+    lemma_rt_row(r, g, b, 0); lemma_rt_row(r, g, b, 1); lemma_rt_row(r, g, b, 2);
+    lemma_abs_bound(res(0, 0), res(0, 1), res(0, 2), r, g, b); lemma_abs_bound(res(1, 0), res(1, 1), res(1, 2), r, g, b); lemma_abs_bound(res(2, 0), res(2, 1), res(2, 2), r, g, b);
+}
+pub proof fn lemma_pos_mix(r: real, g: real, b: real, i: int)
+    requires 0 <= i < 3, r >= 0real, g >= 0real, b >= 0real
+    ensures mix_spec(r, g, b, i) >= s_OPSIN_ABSORBANCE_BIAS(i), s_OPSIN_ABSORBANCE_BIAS(i) > 0real
+{
+    let a0 = s_OPSIN_ABSORBANCE_MATRIX(3 * i); let a1 = s_OPSIN_ABSORBANCE_MATRIX(3 * i + 1); let a2 = s_OPSIN_ABSORBANCE_MATRIX(3 * i + 2);
+    assert(a0 > 0real && a1 > 0real && a2 > 0real) by { assert(i == 0 || i == 1 || i == 2); }
+    assert(a0 * r >= 0real) by(nonlinear_arith) requires a0 > 0real, r >= 0real;
+    assert(a1 * g >= 0real) by(nonlinear_arith) requires a1 > 0real, g >= 0real;
+    assert(a2 * b >= 0real) by(nonlinear_arith) requires a2 > 0real, b >= 0real;
+    assert(i == 0 || i == 1 || i == 2);
+}
+// row i of INV * (A p) equals p_i + sum_j res(i,j) p_j: a polynomial identity in the 18 constants and r, g, b (generated proof)
+@RTROW@
+"""
+
+def rt_row_lemma():
+    """inv_row(A p) == p_i + sum_j res(i,j) p_j as a generated polynomial identity over atoms (9 A, 3 INV of row i, r,g,b)."""
+    from polyproof import Atom, identity_proof
+    A = [[Atom(f'a{i}{j}') for j in range(3)] for i in range(3)]
+    N = [Atom(f'n{j}') for j in range(3)]
+    r, g, b = Atom('r'), Atom('g'), Atom('b')
+    p = [r, g, b]
+    mixm = [A[i][0] * r + (A[i][1] * g + (A[i][2] * b)) for i in range(3)]       # mix - bias
+    lhs = N[2] * mixm[2] + (N[1] * mixm[1] + N[0] * mixm[0])
+    rhs = (N[0] * A[0][0] + N[1] * A[1][0] + N[2] * A[2][0]) * r + (N[0] * A[0][1] + N[1] * A[1][1] + N[2] * A[2][1]) * g + (N[0] * A[0][2] + N[1] * A[1][2] + N[2] * A[2][2]) * b
+    params = ', '.join(f'a{i}{j}: real' for i in range(3) for j in range(3)) + ', n0: real, n1: real, n2: real, r: real, g: real, b: real'
+    txt, tl, tr = identity_proof('poly_rt_row', params, lhs, rhs)
+    wrap = """
+pub proof fn lemma_rt_row(r: real, g: real, b: real, i: int)
+    requires 0 <= i < 3
+    ensures inv_row(mix_spec(r, g, b, 0) - s_OPSIN_ABSORBANCE_BIAS(0), mix_spec(r, g, b, 1) - s_OPSIN_ABSORBANCE_BIAS(1), mix_spec(r, g, b, 2) - s_OPSIN_ABSORBANCE_BIAS(2), i)
+        == (if i == 0 { r } else if i == 1 { g } else { b }) + (res(i, 0) * r + res(i, 1) * g + res(i, 2) * b)
+{
+    let a = |k: int| s_OPSIN_ABSORBANCE_MATRIX(k);
+    let n0 = s_INVERSE_OPSIN_ABSORBANCE_MATRIX(3 * i); let n1 = s_INVERSE_OPSIN_ABSORBANCE_MATRIX(3 * i + 1); let n2 = s_INVERSE_OPSIN_ABSORBANCE_MATRIX(3 * i + 2);
+    poly_rt_row(a(0), a(1), a(2), a(3), a(4), a(5), a(6), a(7), a(8), n0, n1, n2, r, g, b);
+    let e0 = n0 * a(0) + n1 * a(3) + n2 * a(6); let e1 = n0 * a(1) + n1 * a(4) + n2 * a(7); let e2 = n0 * a(2) + n1 * a(5) + n2 * a(8);
+    assert(res(i, 0) == e0 - (if i == 0 { 1real } else { 0real }));
+    assert(res(i, 1) == e1 - (if i == 1 { 1real } else { 0real }));
+    assert(res(i, 2) == e2 - (if i == 2 { 1real } else { 0real }));
+    pp_distr_l(res(i, 0), if i == 0 { 1real } else { 0real }, r); pp_distr_l(res(i, 1), if i == 1 { 1real } else { 0real }, g); pp_distr_l(res(i, 2), if i == 2 { 1real } else { 0real }, b);
+    pp_one(r); pp_one(g); pp_one(b); pp_zero(r); pp_zero(g); pp_zero(b);
+}
+pub proof fn lemma_abs_bound(e0: real, e1: real, e2: real, r: real, g: real, b: real)
+    requires absr(e0) <= 0.000001real, absr(e1) <= 0.000001real, absr(e2) <= 0.000001real, 0real <= r <= 1real, 0real <= g <= 1real, 0real <= b <= 1real
+    ensures absr(e0 * r + e1 * g + e2 * b) <= 0.000003real
+{
+    assert(absr(e0 * r) <= 0.000001real) by(nonlinear_arith) requires absr(e0) <= 0.000001real, 0real <= r <= 1real;
+    assert(absr(e1 * g) <= 0.000001real) by(nonlinear_arith) requires absr(e1) <= 0.000001real, 0real <= g <= 1real;
+    assert(absr(e2 * b) <= 0.000001real) by(nonlinear_arith) requires absr(e2) <= 0.000001real, 0real <= b <= 1real;
+}
+"""
+    return txt + wrap
+
+def add_images(src, g, fxify):
+    g.add(IMG_SPEC)
+    inv1 = '            forall|k: int| 0 <= k < i_ ==> xyb_px(input_0[k], #[trigger] input@[k]),\n'
+    inv2 = '            forall|k: int| 0 <= k < i_ ==> lrgb_px(input_0[k], #[trigger] input@[k]),\n'
+    for name, inv, post in (('linear_rgb_to_xyb', inv1, 'xyb_px'), ('xyb_to_linear_rgb', inv2, 'lrgb_px')):
+        sp = src.find('fn', name, keep_attrs=True)
+        txt = src.get(sp)
+        txt, n = re.subn(r'\(mut input: Vec<\[f32; 3\]>\)', '(input0: Vec<[f32; 3]>)', txt)
+        if n != 1: raise AnchorLost(f'{name} signature changed')
+        txt = txt.replace('{', '{\n    let mut input = input0;', 1)
+        txt = unroll_zip3(txt, g)
+        txt = pixloop(txt, g, inv)
+        txt = fxify(txt)
+        c = C(attrs=['#[verifier::loop_isolation(false)]'], ensures=['r@.len() == input0@.len()',
+                       # C04/C05/C11: pixel i of the output is the per-pixel definition applied to pixel i of the input
+                       f'forall|k: int| 0 <= k < input0@.len() ==> {post}(input0@[k], #[trigger] r@[k])'])
+        g.under_contract.append({'fn': name, 'src': f'{REL}:{src.line_of(sp[0])}', 'requires': [], 'ensures': c.ensures})
+        g.add(apply_contract(txt, c, g.dropped))
+    g.add(RT_LEMMA.replace('@RTROW@', rt_row_lemma()))
+    g.assumed.append('cbrtf is an uninterpreted function of its argument in U-xyb; lemma_round_trip states its ideal-cube-root hypotheses explicitly')
 
 def spec_of(expr):
     """exec Fx expression made of lit(), NAME(), + - unary minus  ->  the same expression over reals."""
